@@ -61,6 +61,16 @@ CHECKS.update({
    text="Every storage write and every engine-issued provider mutation of a generated run is a crash point; quick samples 12 evenly spread points per history, thorough enumerates all of them. After the crash the history continues and must still converge without loss and (one-sided) without '.conflicted' names.",
    note=E_NOTE + " Atomic row writes are assumed (DictStorage). KF-29/KF-27b (object touched again between crash and re-sync) are fenced off and replayed."),
 })
+CHECKS.update({
+ "C05": dict(engine="E-engine-harness", category="exploration", design_ref="2/C05",
+   technique="property-based testing against an outcome table: generated (shape, contents, resolver behaviour, flavour, two step schedules) cases with an instrumented resolver installed through the documented override; metamorphic relation between the two schedules; exhaustive enumeration of the resolver x shape x flavour x content-class product",
+   text="The resolver logs what it is handed and answers according to the drawn behaviour; the final trees are judged by the statement's table (winner at the path on both sides, loser kept iff keep, merged data, remote-wins fallback for None/raise/garbage, silent merge for equal contents) and must be identical for two independently drawn schedules.",
+   note=E_NOTE + " Resolver answer (merged, keep=True) is an open finding (KF-06), replayed every run and not generated."),
+ "C14": dict(engine="E-engine-harness", category="exploration", design_ref="2/C14",
+   technique="metamorphic property-based testing: every generated history is executed twice (clean vs. script-driven mangled event delivery: duplicates, late copies, singleton batches, held-back and reordered events on id-style sides, injected id-less/never-existed events, walk replays); oracle = equal final trees (== expected), transfer multiset inclusion for immediate duplicates, no mutation when redundant information is fed to a quiet engine",
+   text="Delivery details are owned by a wrapper around provider.events() with its own cursor; the outcome of the mangled run must equal the clean run and the reference tree. Where timing is identical (immediate duplicates) the mangled run may not perform any additional successful create/upload/delete; walks and bogus events at a quiet point must cause no provider mutation.",
+   note=E_NOTE + " Walk replays overtaking pending renames on a path-style side are an open finding (KF-32)."),
+})
 NOT_YET = {}
 
 def main():
